@@ -38,6 +38,44 @@ def switched(c, p):
     return f"({c}.ground_truth_object is not None and {p}.ground_truth_object is not None and ({se} != {sg}))"
 
 
+def score_init_task(P):
+    """TrackingMetricsScore.__init__: the i-th CLEAR is built for the i-th target label from THAT label's history and ground-truth count and the i-th threshold,
+    whatever order the dictionaries list the labels in (two labels, both orders)"""
+    idx = P.index
+    TM = "evaluation.metrics.tracking.tracking_metrics_score"
+    AL = idx.lookup("common.label:AutowareLabel")
+    MM = idx.lookup(f"{OM}:MatchingMode")
+    CLR = idx.lookup(f"{CL}:CLEAR")
+    names = [n for n, _ in AL.enum_members(idx)]
+    lab = lambda n: member(idx, "common.label:AutowareLabel", n)
+    RT2 = TSList(TSList(TSObj("DynamicObjectWithPerceptionResult")))
+    ctor = Contract(f"{CL}:CLEAR.__init__", params={},
+                    assigns={"self.seen_results": "object_results", "self.seen_num_gt": "num_ground_truth", "self.seen_label": "target_labels[0]",
+                             "self.seen_n_labels": "len(target_labels)", "self.seen_mode": "matching_mode", "self.seen_threshold": "matching_threshold_list[0]",
+                             "self.seen_n_thresholds": "len(matching_threshold_list)"})
+    for order in (("CAR", "PEDESTRIAN"), ("PEDESTRIAN", "CAR")):
+        def dicts(it, order=order):
+            res = it.ctx.new_cell("dict", ([lab(n) for n in order], [RT2.fresh(it.ctx, "history_" + n) for n in order]))
+            num = it.ctx.new_cell("dict", ([lab(n) for n in reversed(order)], [TInt().fresh(it.ctx, "num_gt_" + n) for n in reversed(order)]))
+            return res, num
+        P.verify(f"{TM}:TrackingMetricsScore.__init__", name=f"TrackingMetricsScore.__init__[dictionaries list {order[0]} first]",
+                 contract=Contract(f"{TM}:TrackingMetricsScore.__init__", cut=False,
+                                   params={"self": lambda it: it.ctx.new_cell("obj", {}, idx.lookup(f"{TM}:TrackingMetricsScore")),
+                                           "object_results_dict": lambda it, order=order: dicts(it, order)[0],
+                                           "num_ground_truth_dict": lambda it, order=order: dicts(it, order)[1],
+                                           "target_labels": lambda it: it.ctx.new_cell("list", [lab("CAR"), lab("PEDESTRIAN")]),
+                                           "matching_mode": TEnum(MM),
+                                           "matching_threshold_list": lambda it: it.ctx.new_cell("list", [VReal(it.ctx.fresh("thr_car", R)), VReal(it.ctx.fresh("thr_ped", R))])},
+                                   ensures=E("one_clear_per_target_label_in_their_order", "len(self.clears) == 2",
+                                             "each_from_its_own_labels_history_count_and_threshold",
+                                             " and ".join(f"self.clears[{i}].seen_results is object_results_dict[target_labels[{i}]] and "
+                                                          f"self.clears[{i}].seen_num_gt == num_ground_truth_dict[target_labels[{i}]] and "
+                                                          f"self.clears[{i}].seen_label is target_labels[{i}] and self.clears[{i}].seen_n_labels == 1 and "
+                                                          f"self.clears[{i}].seen_mode is matching_mode and self.clears[{i}].seen_threshold == matching_threshold_list[{i}] and "
+                                                          f"self.clears[{i}].seen_n_thresholds == 1" for i in range(2)))),
+                 extra_contracts={idx.lookup(f"{CL}:CLEAR.__init__").fq: ctor})
+
+
 def build(P):
     idx = P.index
     models(P)
@@ -200,6 +238,6 @@ def build(P):
     P.lemma("tp_plus_fp_equals_considered.step", partition)
     P.trust("TPMetricsAp.get_value is 1.0 (inlined from its body); matching scores and correctness are named functions of (result, mode, threshold): C03 / C06")
     P.assume("the TP weight is TPMetricsAp (CLEAR's default); `correct` at a threshold is C03's is_result_correct")
-    P.uncover("the per-frame tp_matching_score (which result's score enters: the previous one for a carried-over match, the current one otherwise) is a named "
-              "function of the frame pair in CLEAR.__init__'s contract and is not specified by _calculate_tp_fp's; TrackingMetricsScore._sum_clear and the scenario "
+    score_init_task(P)
+    P.uncover("TrackingMetricsScore._sum_clear (not in the statement) and the scenario "
               "lemmas (perfect tracker, new id on a continuing target, exchanged identities): native harness only in this build")
